@@ -196,3 +196,147 @@ for _k, _c in (('mapproxy.cache.mbtiles:', 'MBTilesCache'), ('mapproxy.cache.geo
                             body_trace=[_chunk_is_whole_triples]),
                     2: dict(inv=[], types={'loaded_tiles': 'int'}, body_trace=[_row_lookup])},
              trace=[_bulk_answer_db])
+
+
+# ---- single-file databases: what is written for an address is what is asked for under that address ------------------------------------
+def _sql_columns(stmt):
+    """column list of an INSERT statement / WHERE columns of a SELECT or DELETE, from the literal SQL text (None if not literal)"""
+    import re
+    import z3
+    t = getattr(stmt, 't', None)
+    if t is None:
+        return None
+    # the statement may be literal + a symbolic tail (ttl condition): look at the literal head
+    while z3.is_app(t) and not z3.is_string_value(t) and t.num_args() > 0 and t.decl().kind() == z3.Z3_OP_SEQ_CONCAT:
+        t = t.arg(0)
+    if not z3.is_string_value(t):
+        return None
+    text = t.as_string()
+    m = re.search(r'INSERT OR REPLACE INTO \S+ \(([^)]*)\)', text)
+    if m:
+        return [c.strip() for c in m.group(1).split(',')]
+    m = re.search(r'WHERE\s*\(?(.*)', text, re.S)
+    if m:
+        return re.findall(r'(\w+)\s*=\s*\?', m.group(1))
+    return None
+
+
+def _record_of_tile(ex, st, k):
+    import z3
+    from pyvc.values import eq, VSeq
+    evs_ = st.trace[getattr(st, 'iter_start_trace', 0):]
+    pre = st.iter_start_state
+    tile = st.env['tile']
+    tb = [e for e in evs_ if e.name == 'tile_buffer']
+    rd = [e for e in evs_ if e.name == 'read']
+    r0, r1 = pre.env['records'], st.env['records']
+    coord = ex.opaque_field(pre, tile, 'coord')
+    ok = len(tb) == 1 and tb[0].args[0] is tile and len(rd) == 1
+    g = z3.And(z3.BoolVal(bool(ok)), r1.length() == r0.length() + 1)
+    if ok:
+        from pyvc.values import unbox_seq
+        rec = r1.elem(r0.length())
+        items = unbox_seq(rec.t) if hasattr(rec, 't') else None
+        c = coord.val if hasattr(coord, 'val') else coord
+        if items is None or len(items) not in (4, 5):
+            g = z3.BoolVal(False)
+        else:
+            g = z3.And(g, items[0] == c.items[2].t, items[1] == c.items[0].t, items[2] == c.items[1].t,
+                       items[3] == rd[0].result.t if hasattr(rd[0].result, 't') else z3.BoolVal(False))
+            h = st.heap[st.env['self'].ref]
+            if 'supports_timestamp' in h and 'MBTiles' in str(getattr(st.fn, 'key', '')):
+                g = z3.And(g, ex.truth(st, h['supports_timestamp']) == z3.BoolVal(len(items) == 5))
+        i = z3.Int('i_rec')
+        g = z3.And(g, z3.ForAll([i], z3.Implies(z3.And(0 <= i, i < r0.length()), r1.elem(i).t == r0.elem(i).t)))
+    yield ('record_is_level_column_row_bytes_of_this_tile', g,
+           'every tile contributes one record (level, column, row, encoded bytes of THAT tile[, now]); earlier records are unchanged')
+
+
+def _bulk_insert(ex, st, post, result):
+    import z3
+    em = [e for i, e in T.evs(st, 'executemany')]
+    cm = [(i, e) for i, e in T.evs(st, 'commit')]
+    ok = len(em) == 1 and len(em[0].args) == 2 and em[0].args[1] is st.env.get('records')
+    g = z3.BoolVal(bool(ok))
+    cols = _sql_columns(em[0].args[0]) if ok else None
+    if cols is not None:
+        g = z3.And(g, z3.BoolVal(cols[:4] == ['zoom_level', 'tile_column', 'tile_row', 'tile_data']))
+        h = st.heap[post.env['self'].ref]
+        if 'MBTiles' in str(getattr(st.fn, 'key', '')):
+            # as many columns as record fields: the time stamp column exactly with timestamp support
+            g = z3.And(g, ex.truth(st, h['supports_timestamp']) == z3.BoolVal(cols[4:] == ['last_modified']), z3.BoolVal(len(cols) in (4, 5)))
+    yield ('all_records_inserted_in_column_order', g,
+           'one executemany(INSERT OR REPLACE ...) with all collected records; where the statement is literal its column list is '
+           '(zoom_level, tile_column, tile_row, tile_data[, last_modified]) - the order of the record fields')
+    failed = any(e.raised == 'OperationalError' for e in em + [e for i, e in cm])
+    if not failed:
+        yield ('stored_means_committed', z3.And(z3.BoolVal(len(cm) == 1 and bool(em) and cm[0][0] > st.trace.index(em[0]) and not cm[0][1].raised), ex.truth(st, result)),
+               'the answer True is given only after the transaction was committed')
+    else:
+        yield ('failed_store_is_reported', z3.Not(ex.truth(st, result)), 'a database error during the insert is reported as False, not as success')
+
+
+def _single_lookup(kind):
+    def clause(ex, st, post, result):
+        import z3
+        from pyvc.values import eq
+        tile = post.env['tile']
+        exe = [e for i, e in T.evs(st, 'execute')]
+        if not exe:
+            if kind == 'load':
+                c = ex.opaque_field(st, tile, 'coord')
+                yield ('no_query_only_if_loaded_or_no_address', z3.And(z3.Or(ex.truth(st, ex.opaque_field(st, tile, 'source')), c.isnone), ex.truth(st, result)),
+                       'the database is not asked only for a tile that already has its data or has no address (answer True)')
+            else:
+                yield ('delete_is_executed', z3.BoolVal(False), 'remove_tile executes a DELETE')
+            return
+        ok = len(exe) == 1 and len(exe[0].args) == 2
+        g = z3.BoolVal(bool(ok))
+        if ok:
+            c = ex.opaque_field_at(st, exe[0], tile, 'coord')
+            g = z3.And(g, eq(exe[0].args[1], c))
+            cols = _sql_columns(exe[0].args[0])
+            if cols is not None:
+                g = z3.And(g, z3.BoolVal(cols[:3] == ['tile_column', 'tile_row', 'zoom_level']))
+        yield ('asked_for_exactly_this_address', g,
+               'the statement is parameterised with tile.coord = (column, row, level); where it is literal its conditions are '
+               'tile_column = ? AND tile_row = ? AND zoom_level = ? in this order')
+        if kind == 'load':
+            fo = [e for i, e in T.evs(st, 'fetchone')]
+            src = [e for e in st.trace if e.name == 'setattr:source']
+            bio = [e for i, e in T.evs(st, 'BytesIO')]
+            okl = len(fo) == 1
+            g2 = z3.BoolVal(bool(okl))
+            if okl:
+                found = ex.truth(st, fo[0].result)
+                g2 = z3.And(g2, found == ex.truth(st, result), found == z3.BoolVal(len(src) == 1))
+                for e in src:
+                    g2 = z3.And(g2, z3.BoolVal(e.recv is not None and e.recv.t.eq(tile.t) and len(bio) == 1))
+            yield ('found_row_becomes_the_tile_data', g2, 'the answer is True exactly when a row was found, and then its first column becomes the data of this tile')
+        else:
+            cm = [e for i, e in T.evs(st, 'commit')]
+            yield ('delete_is_committed', z3.BoolVal(len(cm) == 1), 'the DELETE is committed')
+    return clause
+
+
+for _k, _c in (('mapproxy.cache.mbtiles:', 'MBTilesCache'), ('mapproxy.cache.geopackage:', 'GeopackageCache')):
+    contract(_k + _c + '._store_bulk', props=['C05'],
+             types=dict(tiles='list[opaque]'), returns='bool', default_callee='opaque',
+             # (only tiles with an address are ever stored: the callers filter / create them from grid coordinates)
+             requires=['forall(lambda j: implies(0 <= j < len(tiles), tiles[j].coord is not None))'],
+             opaque_fields=TF, stable_fields=['coord'],
+             opaque_spec={'tile_buffer': {'pure': True}, 'read': {'pure': True}, 'time': {'returns': 'real', 'pure': True}, 'cursor': {'pure': True},
+                          'executemany': {'raises': ['OperationalError']}, 'commit': {'raises': ['OperationalError']}, 'format': {'pure': True}},
+             loops={0: dict(inv=[], types={'records': 'list[opaque]'}, body_trace=[_record_of_tile])},
+             trace=[_bulk_insert])
+    contract(_k + _c + '.load_tile', props=['C05'],
+             types=dict(tile='opaque', with_metadata='bool', dimensions='opaque'), returns='bool', default_callee='opaque',
+             opaque_fields=TF, stable_fields=['coord'],
+             opaque_spec={'cursor': {'pure': True}, 'execute': {'pure': True}, 'fetchone': {'pure': True}, 'ImageSource': {'pure': True},
+                          'BytesIO': {'pure': True}, 'format': {'pure': True}, 'sqlite_datetime_to_timestamp': {'pure': True}},
+             trace=[_single_lookup('load')])
+    contract(_k + _c + '.remove_tile', props=['C05'],
+             types=dict(tile='opaque', dimensions='opaque'), returns='bool', default_callee='opaque',
+             opaque_fields=TF, stable_fields=['coord'],
+             opaque_spec={'cursor': {'pure': True}, 'execute': {'pure': True}, 'commit': {}, 'format': {'pure': True}},
+             trace=[_single_lookup('remove')])
